@@ -52,6 +52,7 @@ struct IdHandler : public Http::Handler {
     void onRequest(const Http::Request& req, Http::ResponseWriter response) override {
         { std::lock_guard<std::mutex> g(g_m); g_seen_ids.insert(req.resource()); }
         if (req.resource().rfind("/hold", 0) == 0) lv::msleep(800);   // keeps this worker away from its event loop for more than one scan period
+        if (req.resource() == "/blob") { response.send(Http::Code::Ok, std::string(8u << 20, 'z')); return; }   // an answer that does not fit the socket of a client that never reads
         response.send(Http::Code::Ok, "seen " + req.resource() + " body " + std::to_string(req.body().size()));
     }
 };
@@ -191,7 +192,7 @@ static void run_c14t(long cases) {
         std::vector<std::thread> th;
         std::mutex rm; std::vector<std::pair<std::string, std::string>> results;   // (key or "", witness)
         double minT = std::min(H, B);
-        for (int kind = 0; kind < 12; kind++) {
+        for (int kind = 0; kind < 13; kind++) {
             long myidx = idx++;
             th.emplace_back([&, kind, myidx] {
                 std::string kn; std::string key;
@@ -200,7 +201,9 @@ static void run_c14t(long cases) {
                 std::string head = "POST /t" + std::to_string(myidx) + " HTTP/1.1\r\nHost: x\r\nContent-Length: 10\r\n\r\n";
                 std::string body = "0123456789";
                 std::string buf; lv::HttpMsg m;
+                lv::Conn* cur = &c;
                 auto expect408 = [&](double deadlineFromStart, const std::string& where) {
+                    lv::Conn& c = *cur;
                     // must be answered 408 and closed by the time-out + scan period + slack; never judged inside the scan band
                     double slack = 1.5 * lv::load_factor();
                     int ms = (int)((deadlineFromStart + 0.5 + slack - (lv::now() - t0)) * 1000);
@@ -251,6 +254,18 @@ static void run_c14t(long cases) {
                         double want = minT - 0.3; lv::msleep((int)(want * 1000));
                         if (lv::now() - t0 > want + 0.08) { std::lock_guard<std::mutex> g(rm); results.push_back({"", ""}); return; }   // the sleep overshot (loaded machine): not a case
                         c.send_all(head + body); expect200(kn); break; }
+                case 12: { kn = "silent-after-a-peer-with-blocked-output-timed-out-and-left";
+                        // a history on one descriptor number: a connection asks for an answer it never reads (its output blocks), stays idle past the
+                        // time-out - whatever the idle scan does about it is queued behind the blocked output - and resets.  The connections opened
+                        // next (one of them gets that descriptor number at the server) go silent: they are timed out like any other connection.
+                        c.close_now();
+                        { lv::Conn a; if (!a.open_to(port, 2048)) break; a.send_all("GET /blob HTTP/1.1\r\nHost: x\r\n\r\n"); lv::msleep((int)((minT + 1.3) * 1000)); a.rst_close(); }
+                        lv::msleep(60);
+                        // (enough of them to take every descriptor number that has become free in the meantime, the other cases of this server run beside this one)
+                        std::vector<std::unique_ptr<lv::Conn>> xs; for (int q = 0; q < 16; q++) { xs.emplace_back(new lv::Conn()); if (!xs.back()->open_to(port)) xs.pop_back(); }
+                        t0 = lv::now();
+                        for (auto& x : xs) { if (!key.empty()) break; cur = x.get(); buf.clear(); expect408(minT, kn); }
+                        break; }
                 default: kn = "body-after-header-timeout-within-body-timeout";
                         if (B > H) { c.send_all(head); lv::msleep((int)((H + 0.3) * 1000)); if (lv::now() - t0 < B - 0.4) { c.send_all(body); expect200(kn); } }
                         else { c.send_all(head + body); expect200(kn); }
